@@ -237,6 +237,61 @@ func main() {
 		k.cancel()
 		report(name, bad)
 	}
+	// ---- WaitFor* : nil iff the awaited channels closed; a timeout is ErrTimeout; the Err
+	// variants report the machine's error when it occurs during the wait
+	for _, helper := range []string{"WaitForAny", "WaitForAll", "WaitForErrAny", "WaitForErrAll"} {
+		for _, what := range []string{"closes", "timeout", "error"} {
+			if what == "error" && (helper == "WaitForAny" || helper == "WaitForAll") {
+				continue
+			}
+			total++
+			name := helper + ", " + what
+			bad := ""
+			reps := 1
+			if what == "timeout" {
+				reps = 12 // a ready case is chosen at random: every run must say timeout
+			}
+			for i := 0; i < reps && bad == ""; i++ {
+				k := newMach(false, false)
+				m := k.m
+				ch := make(chan struct{})
+				timeout := 2 * time.Second
+				switch what {
+				case "closes":
+					go func() { time.Sleep(20 * time.Millisecond); close(ch) }()
+				case "timeout":
+					timeout = 40 * time.Millisecond
+				case "error":
+					go func() { time.Sleep(20 * time.Millisecond); m.AddErr(fmt.Errorf("boom-wait"), nil) }()
+				}
+				start := time.Now()
+				err, ok := guard(func() error {
+					switch helper {
+					case "WaitForAny":
+						return amhelp.WaitForAny(context.Background(), timeout, ch)
+					case "WaitForAll":
+						return amhelp.WaitForAll(context.Background(), timeout, ch)
+					case "WaitForErrAny":
+						return amhelp.WaitForErrAny(context.Background(), timeout, m, ch)
+					}
+					return amhelp.WaitForErrAll(context.Background(), timeout, m, ch)
+				})
+				took := time.Since(start)
+				switch {
+				case !ok:
+					bad = "the helper blocked"
+				case what == "closes" && err != nil:
+					bad = fmt.Sprintf("returned %v although the channel closed", err)
+				case what == "timeout" && err == nil:
+					bad = "returned nil (success) although nothing happened before the timeout"
+				case what == "error" && (err == nil || took > time.Second):
+					bad = fmt.Sprintf("returned %v after %v although the machine got an error 20ms into the wait", err, took.Round(time.Millisecond))
+				}
+				k.cancel()
+			}
+			report(name, bad)
+		}
+	}
 	// ---- disposed machine: every helper returns
 	{
 		total++
